@@ -668,6 +668,7 @@ func (e *Exec) doMerge(c *Cmd, gsuffix string) string {
 			ch <- struct{}{}
 		}
 	}
+	engOp, engN := "", 0
 	rep := &countReporter{ch: ch}
 	switch {
 	case cl == "before" || strings.HasPrefix(cl, "beforebuf:"):
@@ -675,6 +676,15 @@ func (e *Exec) doMerge(c *Cmd, gsuffix string) string {
 		rep.closed = true
 	case strings.HasPrefix(cl, "report:"):
 		rep.closeAt, _ = strconv.Atoi(strings.TrimPrefix(cl, "report:"))
+	case strings.HasPrefix(cl, "engine:"):
+		// engine:<op>:<n>: the channel is closed from inside the n-th engine call of that kind, i.e.
+		// while the vector section is being merged
+		parts := strings.SplitN(strings.TrimPrefix(cl, "engine:"), ":", 2)
+		if len(parts) == 2 {
+			engOp = parts[0]
+			engN, _ = strconv.Atoi(parts[1])
+			e.vecArmHook(engOp, engN, func() { close(ch) })
+		}
 	}
 	var maps [][]uint64
 	var size uint64
@@ -715,6 +725,9 @@ func (e *Exec) doMerge(c *Cmd, gsuffix string) string {
 		extra = " fired=" + b01(e.vecFired(parts[0], n)) + " " + e.vecAfterFault()
 	} else {
 		call()
+	}
+	if engOp != "" {
+		extra += " fired=" + b01(e.vecFired(engOp, engN)) + " " + e.vecAfterFault()
 	}
 	if cl != "never" {
 		extra += fmt.Sprintf(" close=%s reports=%d", cl, rep.n)
